@@ -287,7 +287,7 @@ func (g *Gen) topType(depth int) *TyDef {
 			return Map(g.keyType(depth-1), g.mapValueType(depth-1))
 		}
 	case 2:
-		return named(g.r.Pick("Rec", "MutA", "MutB", "RecMap", "Inner", "Outer"))
+		return named(g.r.Pick("Rec", "MutA", "MutB", "RecMap", "Inner", "Outer", "Emb"))
 	}
 	return g.structType(depth)
 }
